@@ -155,7 +155,9 @@ func (g *copyGen) expr(T types.Type, depth int, choice bool, pre *strings.Builde
 		if depth > 3 {
 			return fmt.Sprintf("%s{%s}", g.ts(T), g.expr(u.Elem(), depth+1, false, pre))
 		}
-		return fmt.Sprintf("%s{%s, %s}", g.ts(T), g.expr(u.Elem(), depth+1, false, pre), g.expr(u.Elem(), depth+1, false, pre))
+		// built by append into a larger backing array: length 2, capacity 5 (a Copy() that sizes its
+		// result by capacity, or shares the spare room, shows)
+		return fmt.Sprintf("append(make(%s, 0, 5), %s, %s)", g.ts(T), g.expr(u.Elem(), depth+1, false, pre), g.expr(u.Elem(), depth+1, false, pre))
 	case *types.Array:
 		return g.zero(T)
 	case *types.Map:
